@@ -102,6 +102,7 @@ func viewAlphabet() []*viewT {
 		{tag: "filter{k1,k2}", class: "filter", crit: 3, hasFilter: true, filter: []string{"k1", "k2"}},
 		{tag: "drop", class: "drop", agg: 1},
 		{tag: "rename(y)", class: "rename", rename: "y"},
+		{tag: "rename(M1)", class: "rename", rename: "M1"}, // differs from the instrument name only in letter case: same stream identity
 		{tag: "rename(y)+filter{k1}", class: "rename+filter", crit: 3, rename: "y", hasFilter: true, filter: []string{"k1"}},
 		{tag: "reaggregate", class: "reaggregate", crit: 1, agg: 2},
 		{tag: "reaggregate+rename(z)", class: "reaggregate+rename", rename: "z", agg: 2},
@@ -238,7 +239,7 @@ func (c *runCfg) resolve() {
 		switch {
 		case da == nil && db == nil:
 			c.class = "pair:both-drop"
-		case an != bn || ad != bd:
+		case !strings.EqualFold(an, bn) || ad != bd: // instrument / stream names are case-insensitive
 			c.class = "pair:distinct-identities"
 		case da == nil:
 			c.class = "pair:same-identity/drop-listed-first"
@@ -258,7 +259,7 @@ func (c *runCfg) resolve() {
 		placed := false
 		for gi := range c.groups {
 			g := &c.groups[gi]
-			if g.name == d.name && g.desc == d.desc {
+			if strings.EqualFold(g.name, d.name) && g.desc == d.desc { // first-seen spelling is kept
 				placed = true
 				dup := false
 				for _, e := range g.defs {
